@@ -93,6 +93,36 @@ Proof.
 Qed.
 Print Assumptions c19_third_key_refused.
 
+(* Acceptance is a function of the message alone: whatever the tracker holds
+   (an earlier delivery of a message with the same signature, sender and
+   sequence number, the epoch, pending slots), the reader accepts m exactly
+   when check_recv accepts it, and then stores exactly m. *)
+Theorem c19_accept_stateless : forall c t m,
+  reader c (PRecv (Some m)) t =
+  match check_recv (peer_key c) m with
+  | Ok _ => Ok (h_recv m t)
+  | Err k => Err k
+  | Panic => Panic
+  end.
+Proof. exact accept_stateless. Qed.
+Print Assumptions c19_accept_stateless.
+
+(* in particular a re-delivery with the same envelope but another body is
+   refused in every state in which the reader runs *)
+Theorem c19_replay_changed_body_refused : forall c s cn m body',
+  conn s = Some cn -> c_rerr cn = None ->
+  check_recv (peer_key c) m = Ok tt -> body' <> m_data m ->
+  exists k, step c s (AResp (PRecv (Some (mkMsg (m_from m) body' (m_sig m) (m_seq m) (m_ht m) (m_att m))))) =
+            Some (set_conn (Some (mkConn (c_w cn) (Some k))) s, [OBad k]).
+Proof.
+  intros c s cn m body' Hc Hr Hok Hb.
+  destruct (bad_message_ends_session c s cn (mkMsg (m_from m) body' (m_sig m) (m_seq m) (m_ht m) (m_att m)) Hc Hr) as (k & E & _).
+  - intros Hok'. apply check_recv_ok in Hok as (_ & Hs & _). apply check_recv_ok in Hok' as (_ & Hs' & _).
+    cbn in Hs'. rewrite Hs in Hs'. inversion Hs'. congruence.
+  - exists k. exact E.
+Qed.
+Print Assumptions c19_replay_changed_body_refused.
+
 (* non-vacuity: a history in which Recv returns an honest message of peer 1
    (local key 0), after the four forged variants were refused on an earlier
    stream: bit-flipped body, third key claiming peer 1, other context, junk. *)
